@@ -103,6 +103,25 @@ def regcmp : Handler := fun args impl =>
     { model := m, oracle := if inDom ∧ ¬ ok then some s!"register {i} window ({s},{w}) value {v}: {impl}" else none }
   | _ => unmodelled
 
-def handlers : List (String × Handler) := [("nmf", nmf), ("regcmp", regcmp)]
+/-- `nmf2 <name> <v1> <v2> [<ofs> <width>]`: the field built first is encoded, a second field of the same name is built
+    with another value, the first is encoded again: each build yields an independent value, so the first field still
+    encodes to what it encoded to before -/
+def nmf2 : Handler := fun args impl =>
+  match args with
+  | name :: v1 :: v2 :: mask =>
+    match v1.toNat?, v2.toNat?, mask.mapM (fun (x : String) => x.toNat?) with
+    | some a, some b, some ms =>
+      let enc (v : Nat) : Option String :=
+        match NewMatchField name (Int.ofNat v) (ms.map Int.ofNat) with
+        | .ok f => (marshalField f).map toHex
+        | _ => none
+      let m := match enc a, enc b with
+        | some x, some y => s!"same {x} {y}"
+        | _, _ => "err"
+      { model := m, oracle := if impl.startsWith "changed" then some s!"{name}: building a second field changed the first: {impl.take 200}" else none }
+    | _, _, _ => unmodelled
+  | _ => unmodelled
+
+def handlers : List (String × Handler) := [("nmf", nmf), ("regcmp", regcmp), ("nmf2", nmf2)]
 
 end OFV.Driver.C17
